@@ -3,9 +3,9 @@ import segno
 
 from .. import qrref as R
 from .. import gens
-from ..common import (call, Refused, Crash, dec_content, decode_symbol, expected_parts, codec_name,
+from ..common import (call, Refused, Crash, dec_content, decode_symbol, expected_parts, codec_name, enc_content,
                       version_class)
-from ..runner import Dev, Outcome, Search
+from ..runner import Dev, Outcome, Search, Enum
 
 PROPERTY = 'C01'
 LEVEL = 'exploration'
@@ -121,6 +121,27 @@ def check_case(case):
     return Outcome(devs, labels, nontrivial)
 
 
+def double_byte_sweep():
+    """Every character of the Kanji mode ranges (Shift JIS 8140-9FFC, E040-EBBF) and of GB2312 goes through the
+    encoder at least twice (as text with automatic mode, as bytes with the mode requested); the first and last
+    character of every lead byte also alone."""
+    cases = []
+    for chars, codec, mode in ((gens.sjis_chars(), 'shift_jis', 'kanji'), (gens.gb_chars(), 'gb2312', 'hanzi')):
+        for i in range(0, len(chars), 12):
+            chunk = chars[i:i + 12]
+            kw = {'micro': False} if mode == 'kanji' else {'mode': 'hanzi'}
+            cases.append({'fn': 'make', 'content': enc_content(chunk), 'kw': dict(kw, mask=(i // 12) % 8)})
+            cases.append({'fn': 'make_qr', 'content': enc_content(chunk.encode(codec)), 'kw': {'mode': mode, 'error': 'LMQH'[(i // 12) % 4]}})
+        leads = {}
+        for ch in chars:
+            leads.setdefault(ch.encode(codec)[0], []).append(ch)
+        for lead, lst in sorted(leads.items()):
+            for ch in {lst[0], lst[-1]}:
+                cases.append({'fn': 'make', 'content': enc_content(ch), 'kw': {} if mode == 'kanji' else {'mode': 'hanzi'}})
+                cases.append({'fn': 'make', 'content': enc_content(ch.encode(codec)), 'kw': {'mode': mode, 'version': 1}})
+    return cases
+
+
 def required_labels(tier):
     return ['multi-part', 'single-part', 'mode-numeric', 'mode-alphanumeric', 'mode-byte', 'mode-kanji',
             'mode-hanzi', 'M1', 'M2', 'M3', 'M4', 'v1-9', 'v10-26', 'eci-header', 'refused']
@@ -138,5 +159,7 @@ def _fuzz(tier):
 
 def phases(tier, seed):
     n = 25600 if tier == 'quick' else 600000
-    ph = [Search('cases', gens.make_cases(big=0.05 if tier == 'quick' else 0.15), n)]
+    ph = [Enum('double-byte-sweep', double_byte_sweep, exhaustive=True,
+               note='every double-byte character of the Kanji mode ranges and of GB2312, 12 per symbol, as text and as bytes; first / last of every lead byte alone'),
+          Search('cases', gens.make_cases(big=0.05 if tier == 'quick' else 0.15), n)]
     return ph + _fuzz(tier)
